@@ -281,7 +281,7 @@ func suites(tier string) []hlib.Suite {
 	if tier == "quick" {
 		return []hlib.Suite{regularSuite(100, 300, 1), varyingSuite(), randomSuite(4), passSuite(), longRunSuite(40_000_000)}
 	}
-	return []hlib.Suite{regularSuite(600, 1500, 1), regularSuite(60, 20000, 7), varyingSuite(), randomSuite(5), passSuite(), longRunSuite(400_000_000)}
+	return []hlib.Suite{regularSuite(1000, 1500, 1), regularSuite(60, 20000, 7), regularSuite(12, 2_000_000, 997), varyingSuite(), randomSuite(5), passSuite(), longRunSuite(400_000_000)}
 }
 
 func main() { hlib.EnumMain("C12", suites) }
